@@ -233,10 +233,18 @@ func (j *Join) ParallelJoinFunc(l, r *HashedTable) ([]any, error) {
 	var wg sync.WaitGroup
 	slice := make([]any, 0)
 
+	var failure error
 	for lk, lv := range l.Keys {
 		wg.Add(1)
 		go func(lk string, lv *map[string]any) {
 			defer wg.Done()
+			defer func() {
+				if r := recover(); r != nil {
+					mut.Lock()
+					failure = recovered(r)
+					mut.Unlock()
+				}
+			}()
 			switch ok, matches, err := j.JoinMatchFunc(lk, lv, l, r); {
 			case ok:
 				{
@@ -246,7 +254,9 @@ func (j *Join) ParallelJoinFunc(l, r *HashedTable) ([]any, error) {
 				}
 			case !ok && err != nil:
 				{
-					panic(err)
+					mut.Lock()
+					failure = err
+					mut.Unlock()
 				}
 			default:
 				{
@@ -256,6 +266,9 @@ func (j *Join) ParallelJoinFunc(l, r *HashedTable) ([]any, error) {
 		}(lk, lv)
 	}
 	wg.Wait()
+	if failure != nil {
+		return nil, failure
+	}
 	return slice, nil
 }
 
@@ -336,10 +349,18 @@ func (j *Join) ParallelHashJoinFunc(l, r *HashedTable) ([]any, error) {
 	var mut sync.Mutex
 	var wg sync.WaitGroup
 	slice := make([]any, 0)
+	var failure error
 	for lk := range l.Rows {
 		wg.Add(1)
 		go func(lk string) {
 			defer wg.Done()
+			defer func() {
+				if r := recover(); r != nil {
+					mut.Lock()
+					failure = recovered(r)
+					mut.Unlock()
+				}
+			}()
 			switch ok, matches, err := j.HashJoinMatchFunc(lk, l, r); {
 			case ok:
 				{
@@ -349,7 +370,9 @@ func (j *Join) ParallelHashJoinFunc(l, r *HashedTable) ([]any, error) {
 				}
 			case !ok && err != nil:
 				{
-					panic(err)
+					mut.Lock()
+					failure = err
+					mut.Unlock()
 				}
 			default:
 				{
@@ -359,6 +382,9 @@ func (j *Join) ParallelHashJoinFunc(l, r *HashedTable) ([]any, error) {
 		}(lk)
 	}
 	wg.Wait()
+	if failure != nil {
+		return nil, failure
+	}
 	return slice, nil
 }
 
